@@ -230,7 +230,21 @@ func main() {
 			npco = 1500
 		}
 		for i := 0; i < npco; i++ {
+			// where the object comes from rotates: the constructor; the zero value; a constructor object on which a helper call was
+			// refused first (an IPv6 address handed to the IPv4 helper and vice versa: an error, and nothing may stay behind); an object
+			// that has unmarshalled another list before (UnMarshal of an empty list, then filled)
 			pco := nasConvert.NewProtocolConfigurationOptions()
+			refusedOk := true
+			switch i % 4 {
+			case 1:
+				pco = &nasConvert.ProtocolConfigurationOptions{}
+			case 2:
+				e1 := pco.AddDNSServerIPv4Address(net.IP(ev.Bytes(r, 16)))
+				e2 := pco.AddDNSServerIPv6Address(net.IPv4(10, 0, 0, byte(i)).To4())
+				refusedOk = e1 != nil && e2 != nil
+			case 3:
+				_ = pco.UnMarshal([]byte{0x80})
+			}
 			n := r.Intn(9)
 			if i < 4 { // fixed shapes first: eight empty units, a first unit of length 0, a last unit of length 255, a single unit of length 255
 				n = []int{8, 3, 3, 1}[i]
@@ -283,7 +297,7 @@ func main() {
 				bcontents = [][]int{}
 			}
 			emit(ev.M{"ev": "Pco", "ids": ids, "contents": contents, "bytes": ev.Ints(b), "backIds": bids, "backContents": bcontents,
-				"panic": p != "" || p2 != "", "err": err != nil})
+				"panic": p != "" || p2 != "", "err": err != nil || !refusedOk, "origin": i % 4})
 		}
 		// the helper constructors of the option list (TS 24.008 table 10.5.154 container identifiers)
 		for rep := 0; rep < 3; rep++ {
